@@ -262,7 +262,11 @@ def ddmin(ops, fails, keep_prefix=1, budget=400):
 
 def load_known(prop):
     res = []
-    p = os.path.join(ROOT, "KNOWN_FINDINGS.jsonl")
+    # known/<prop>.jsonl is the per-property source; KNOWN_FINDINGS.jsonl is their concatenation
+    # (bin/genmanifest). Both are committed, neither is ever written by a check.
+    p = os.path.join(ROOT, "known", prop + ".jsonl")
+    if not os.path.exists(p):
+        p = os.path.join(ROOT, "KNOWN_FINDINGS.jsonl")
     if os.path.exists(p):
         for l in open(p):
             l = l.strip()
